@@ -13,6 +13,8 @@ CONSTANTS
   RestrictionsFirst = FALSE
   IgnoreNegation = FALSE
   PipeFirst = FALSE
+  FormatInKeyOrder = FALSE
+  KeyOrders <- OneKeyOrder
   SharedNested = FALSE
   DeepStore = FALSE
   MaxCalls = 4
